@@ -409,6 +409,11 @@ CountShapes == {
   Count("params",    "def g(", "a", "", ",", TRUE, "):pass\nz = g()\n"),
   Count("defaults",  "def g(", "a", "=0", ",", TRUE, "):pass\nz = g()\n"),
   Count("lambdapar", "z = lambda ", "a", "", ",", TRUE, ": 1\n"),
+  \* repeated parameter names in every parameter position (statically invalid: must be rejected, never crash at the call)
+  Count("dupparams", "def g(", "a", "", ",", FALSE, "):pass\nz = g(1)\n"),
+  Count("dupkwonly", "def g(a, *, ", "a", "=1", ",", FALSE, "):pass\nz = g(1)\n"),
+  Count("dupafterargs", "def g(*args, k, ", "k", "", ",", FALSE, "):pass\nz = g(k=1)\n"),
+  Count("duplambda", "z = (lambda a, *, ", "a", "=2", ",", FALSE, ": a)(1)\n"),
   Count("starargs",  "z = f(", "*x", "", ",", FALSE, ")\n"),
   Count("targets",   "", "a", "", ",", TRUE, " = c\n"),
   Count("globals",   "", "a", "=1", "\n", TRUE, "\n"),
